@@ -489,4 +489,60 @@ WALKER_MUTANTS = [
 ]
 MUTANTS += WALKER_MUTANTS
 
+STREAM_MUTANTS = [
+    dict(id="c09-cc-none", props=["C09"], rule="S1", names="command_code",
+         edits=[(MARSHAL, "            command_code=command.commandCode,\n", "            command_code=None,\n")]),
+    dict(id="c09-flag-command-direction", props=["C09"], rule="S2", names="parameter_encryption",
+         edits=[(MARSHAL, "            parameter_encryption=is_parameter_encryption(command, for_response=True)\n            or None,", "            parameter_encryption=is_parameter_encryption(command, for_response=False)\n            or None,")]),
+    dict(id="c09-swap-bits", props=["C09", "C01"], rule={"C09": "S3", "C01": "F"},
+         edits=[(MARSHAL, """        return any(
+            authorizationArea.sessionAttributes.encrypt
+            for authorizationArea in authorizationArea
+        )
+    else:
+        return any(
+            authorizationArea.sessionAttributes.decrypt""", """        return any(
+            authorizationArea.sessionAttributes.decrypt
+            for authorizationArea in authorizationArea
+        )
+    else:
+        return any(
+            authorizationArea.sessionAttributes.encrypt""")]),
+    dict(id="c09-stale-command", props=["C09"], rule="S1",
+         edits=[(MARSHAL, "        _, command = yield from process(Command, path, abort_on_error=abort_on_error)\n", "        _, command_new = yield from process(Command, path, abort_on_error=abort_on_error)\n        command = command if 'command' in dir() else command_new\n")], skip_if_missing=True),
+    dict(id="c09-first-session-only", props=["C09"], rule="S3",
+         edits=[(MARSHAL, "        return any(\n            authorizationArea.sessionAttributes.encrypt\n            for authorizationArea in authorizationArea\n        )", "        return any(\n            authorizationArea.sessionAttributes.encrypt\n            for authorizationArea in authorizationArea[:1]\n        )")]),
+    dict(id="c09-cut-any-depth", props=["C09"], rule="S5", names="separate_events",
+         edits=[(OBJECT, "            and event.path == ROOT_PATH\n", "            and len(event.path) <= 2\n")]),
+    dict(id="c09-code-not-reset", props=["C09"], rule="S5", names="response branch",
+         edits=[(OBJECT, "            yield response\n            command_code = None\n", "            yield response\n")]),
+    dict(id="c09-response-path", props=["C09"], rule="S4", names="path",
+         edits=[(MARSHAL, "        _, _ = yield from process(\n            Response,\n            path,", "        _, _ = yield from process(\n            Response,\n            path / PathNode(\"response\"),")]),
+    dict(id="c09-benign-rename", props=["C09"], benign=True,
+         edits=[(MARSHAL, "        _, command = yield from process(Command, path, abort_on_error=abort_on_error)", "        _, cmd = yield from process(Command, path, abort_on_error=abort_on_error)"),
+                (MARSHAL, "            command_code=command.commandCode,\n            parameter_encryption=is_parameter_encryption(command, for_response=True)", "            command_code=cmd.commandCode,\n            parameter_encryption=is_parameter_encryption(cmd, for_response=True)")]),
+]
+MUTANTS += STREAM_MUTANTS
+
+PURITY_MUTANTS = [
+    dict(id="c12-cache-regress", props=["C12"], rule="P2", names="lru_cache",
+         edits=[(PARAMS, "    @lru_cache(maxsize=None)\n", "    @lru_cache(maxsize=1)\n")]),
+    dict(id="c12-cache-small", props=["C12"], rule="P2", names="lru_cache",
+         edits=[(PARAMS, "    @lru_cache(maxsize=None)\n", "    @lru_cache(maxsize=8)\n")]),
+    dict(id="c12-module-memo", props=["C12"], rule="P1", names="_cache",
+         edits=[(MARSHAL, "def consume_bytes(count):\n    for _ in range(count):\n        _ = yield\n", "_cache = {}\n\n\ndef consume_bytes(count):\n    for _ in range(count):\n        _ = yield\n"),
+                (MARSHAL, "    size = 0\n    values = {}\n    element_size, element_value = None, None\n", "    size = 0\n    values = _cache.setdefault(tpm_type, {})\n    _cache[tpm_type] = values\n    element_size, element_value = None, None\n")]),
+    dict(id="c12-global-counter", props=["C12"], rule="P1", names="global",
+         edits=[(MARSHAL, "def process_primitive(tpm_type, path, size_constraints=None, abort_on_error=True):\n    \"\"\"Coroutine. Send in one byte if it yields None. Send in None if it yields an MarshalEvents.\"\"\"\n", "_n_primitives = 0\n\n\ndef process_primitive(tpm_type, path, size_constraints=None, abort_on_error=True):\n    \"\"\"Coroutine. Send in one byte if it yields None. Send in None if it yields an MarshalEvents.\"\"\"\n    global _n_primitives\n    _n_primitives += 1\n")]),
+    dict(id="c12-class-attr-store", props=["C12"], rule="P1", names="Response",
+         edits=[(OBJECT, "    obj = tpm_type(**kwargs)\n", "    obj = tpm_type(**kwargs)\n    Response._last_command_code = command_code\n")]),
+    dict(id="c12-mutable-default", props=["C12"], rule="P3", names="default",
+         edits=[(MARSHAL, "    array_size_constraint=None,\n    size_constraints=None,\n    abort_on_error=True,\n):\n    \"\"\"Coroutine. Send in one byte if it yields None. Send in None if it yields an MarshalEvents.\"\"\"\n    if size_constraints is None:", "    array_size_constraint=None,\n    size_constraints=SizeConstraintList(),\n    abort_on_error=True,\n):\n    \"\"\"Coroutine. Send in one byte if it yields None. Send in None if it yields an MarshalEvents.\"\"\"\n    if size_constraints is None:")]),
+    dict(id="c12-encrypted-marks-class", props=["C12"], rule="P1", names="cls",
+         edits=[(PARAMS, "        new_type._encrypted = True\n", "        new_type._encrypted = True\n        cls._encrypted_variant = new_type\n")]),
+    dict(id="c12-benign-functools-cache", props=["C12"], benign=True,
+         edits=[(PARAMS, "from functools import lru_cache\n", "from functools import cache, lru_cache\n"), (PARAMS, "    @lru_cache(maxsize=None)\n", "    @cache\n")]),
+]
+MUTANTS += PURITY_MUTANTS
+
 MUTANTS = [m for m in MUTANTS if not m.get("skip_if_missing")]
